@@ -151,7 +151,8 @@ class TraitDict(dict):
         Any return values are ignored.
         """
 
-        for notifier in self.notifiers:
+        # Iterate over a copy: a notifier may add or remove notifiers.
+        for notifier in list(self.notifiers):
             notifier(self, removed, added, changed)
 
     # -- dict interface -------------------------------------------------------
